@@ -94,4 +94,34 @@ theorem containsSub_append (pat x y : Str) : containsSub pat (x ++ pat ++ y) = t
     right
     simpa [List.append_assoc] using ih
 
+/-! ## remote proxy -/
+
+theorem remoteParts_outcome (configured : Str → Bool) (token : Str) (parts acc : List Str)
+    (sel : Option (Str × Str)) (hsel : ∀ r t, sel = some (r, t) → configured r = true) :
+    (∀ c, remoteParts mac configured token parts acc sel = .status c → c = 400 ∨ c = 500) ∧
+    (∀ r l t, remoteParts mac configured token parts acc sel = .forward r l t → configured r = true) := by
+  induction parts generalizing acc sel with
+  | nil =>
+    cases sel with
+    | none => simp [remoteParts]
+    | some p => obtain ⟨r, t⟩ := p; simp [remoteParts]; exact hsel r t rfl
+  | cons part rest ih =>
+    unfold remoteParts
+    split
+    · exact ih acc sel hsel
+    · split
+      · simp only
+        split
+        · simp
+        · rename_i hcfg
+          split
+          · simp
+          · simp
+          · rename_i salted _
+            apply ih
+            intro r t h
+            simp only [Option.some.injEq, Prod.mk.injEq] at h
+            rw [← h.1]; simpa using hcfg
+      · exact ih (part :: acc) sel hsel
+
 end ArvVerif.C07
